@@ -282,6 +282,11 @@ func RAOpts(r *rand.Rand, mac refdec.MAC) []refdec.NDPOpt {
 	if r.Intn(4) != 0 {
 		o = append(o, refdec.OptLLA(refdec.OptSLLA, mac))
 	}
+	if r.Intn(5) == 0 {
+		// a target link-layer address option has no meaning in an advertisement (RFC 4861 4.2: options that are not defined
+		// for a message are ignored): it must not be taken for anything else
+		o = append(o, refdec.OptLLA(refdec.OptTLLA, refdec.MAC{0x02, 0x77, 0x77, byte(r.Intn(256)), byte(r.Intn(256)), 0x02}))
+	}
 	for i := r.Intn(4); i > 0; i-- {
 		var a [16]byte
 		a[0], a[1], a[2], a[3] = 0x20, 0x01, 0x0d, 0xb8
@@ -411,7 +416,16 @@ func rrRandom(r *rand.Rand, e Env) refdec.DNSRR {
 	case 3:
 		return refdec.DNSRR{Name: n, Type: refdec.TypeCNAME, Class: 1, TTL: ttl, Target: pick(r, hostNames...)}
 	case 4:
-		return refdec.DNSRR{Name: fmt.Sprintf("%d.%d.168.192.in-addr.arpa", r.Intn(256), r.Intn(256)), Type: refdec.TypePTR, Class: 1, TTL: ttl, Target: pick(r, hostNames...)}
+		owner := fmt.Sprintf("%d.%d.168.192.in-addr.arpa", r.Intn(256), r.Intn(256))
+		if r.Intn(3) == 0 {
+			// reverse names of every shape a resolver may be asked about or a hostile peer may send: address literals of both
+			// families in one label or spread over labels, with and without the arpa suffix, too few / too many / too large parts
+			owner = pick(r, "::1.in-addr.arpa", "fe80::1.in-addr.arpa", "::1", "2001:db8::7", "::ffff:10.0.0.1.in-addr.arpa", "::.in-addr.arpa",
+				"1.0.0.0.0.0.0.0.0.0.0.0.0.0.0.0.0.0.0.0.0.0.0.0.0.0.0.0.0.0.0.0.ip6.arpa", "b.a.9.8.ip6.arpa", "10.0.0.1", "1.2.3.in-addr.arpa",
+				"1.2.3.4.5.in-addr.arpa", "300.1.1.1.in-addr.arpa", "in-addr.arpa", "1.1.1.1.in-addr.arpa.in-addr.arpa", "01.02.03.04.in-addr.arpa",
+				"0x7f.1.in-addr.arpa", "1.2.3.4.IN-ADDR.ARPA", fmt.Sprintf("%x::%x.in-addr.arpa", r.Intn(65536), r.Intn(65536)))
+		}
+		return refdec.DNSRR{Name: owner, Type: refdec.TypePTR, Class: 1, TTL: ttl, Target: pick(r, hostNames...)}
 	case 5:
 		return refdec.DNSRR{Name: n, Type: refdec.TypePTR, Class: 1, TTL: ttl, Target: pick(r, hostNames...)}
 	case 6:
@@ -635,7 +649,13 @@ func LLC(r *rand.Rand, kind string) []byte {
 // LLDP builds a chain of LLDP TLVs.
 func LLDP(r *rand.Rand) []byte {
 	var b []byte
+	// one unit in three has TLVs whose value is shorter than the standard says for that type (a capabilities TLV of one byte, a
+	// TTL of none, an identifier without its subtype): the TLV chain itself stays well-formed
+	irregular := r.Intn(3) == 0
 	tlv := func(t int, v []byte) {
+		if irregular && len(v) > 0 && r.Intn(3) == 0 {
+			v = v[:r.Intn(min(len(v), 4))]
+		}
 		b = append(b, byte(t<<1)|byte(len(v)>>8&1), byte(len(v)))
 		b = append(b, v...)
 	}
